@@ -880,7 +880,9 @@ class SpecifierSet(BaseSpecifier):
         >>> sorted(SpecifierSet(">=1.0.0,!=1.0.1"), key=str)
         [<Specifier('!=1.0.1')>, <Specifier('>=1.0.0')>]
         """
-        return iter(self._specs)
+        # In the order used by __str__, so that the sequence does not depend on
+        # string hash randomization.
+        return iter(sorted(self._specs, key=str))
 
     def __contains__(self, item: UnparsedVersion) -> bool:
         """Return whether or not the item is contained in this specifier.
